@@ -21,7 +21,7 @@
 #define verif_dropped_case() M_ASSERT(0, "a case of build_exec that the extraction dropped was reached")
 #define verif_assert_fail_libc(a, b, c, d) verif_assert_fail("assert in build.cc")
 unsigned long nondet_ulong(void);
-enum mop_kind { K_NONE, K_UPSTREAM, K_ORIGIN, K_SUBCHAIN, K_IFELSE, K_MERGE, K_TINE, K_CAPTURE, K_SUBX, K_CLOSURE, K_OR, K_READ, K_UPREAD, K_APPLY, K_BIND, K_BUILTIN, K_LEXCLOSURE };
+enum mop_kind { K_NONE, K_UPSTREAM, K_ORIGIN, K_SUBCHAIN, K_IFELSE, K_MERGE, K_TINE, K_CAPTURE, K_SUBX, K_CLOSURE, K_OR, K_READ, K_UPREAD, K_APPLY, K_BIND, K_BUILTIN, K_LEXCLOSURE, K_SORIGIN, K_SLIT, K_SOP, K_FORMAT };
 typedef struct mlayout { unsigned long m_size; } mlayout;
 typedef struct mlayvec { mlayout d[4]; unsigned long n; } mlayvec;
 #define MLAYVEC_FROM_IL(il) (il)
@@ -163,4 +163,11 @@ static inline mop *mk_bind(mlayout *l, mop *const *up) { mop *o = new_op(K_BIND)
 static inline mop *mk_builtin(const mbuiltin *bi, mop *up, mlayout *l) { mop *o = new_op(K_BUILTIN); o->a[0] = up; o->bi = bi; return o; }
 static inline mop *mk_lex_closure(mop *const *up, const mlayout *il, const unsigned long *irdv, mop *const *origin, mop *const *op, const unsigned long *n)
 { mop *o = new_op(K_LEXCLOSURE); o->a[0] = *up; o->a[1] = *origin; o->a[2] = *op; o->extra = *n; o->extra2 = *irdv; o->lo = il->m_size; return o; }
+/* ---- format strings ---- */
+#define MTV_RBEGIN(v) (&(v)->d[(v)->n])      /* reverse iterator = pointer one past its element */
+#define MTV_REND(v) (&(v)->d[0])
+static inline mop *mk_sorigin(mlayout *l) { mop *o = new_op(K_SORIGIN); model_reserve(o, l); return o; }
+static inline mop *mk_slit(mop *const *s, const matom *str) { mop *o = new_op(K_SLIT); o->a[0] = *s; o->extra = (unsigned long)*str; return o; }
+static inline mop *mk_sop(mlayout *l, mop *const *s, mop *const *origin, mop *const *op) { mop *o = new_op(K_SOP); o->a[0] = *s; o->a[1] = *origin; o->a[2] = *op; model_reserve(o, l); return o; }
+static inline mop *mk_format(mlayout *l, mop *const *up, mop *const *so, mop *const *s) { mop *o = new_op(K_FORMAT); o->a[0] = *up; o->a[1] = *so; o->a[2] = *s; model_reserve(o, l); return o; }
 #endif
